@@ -31,6 +31,27 @@ static std::string hx(const char* p, std::size_t n) {
 static std::string hx(const std::string& s) { return hx(s.data(), s.size()); }
 static std::string hx(upa::string_view s) { return hx(s.data(), s.size()); }
 
+// `aidx <what> <i> <j>`: the name argument is a VIEW of the i-th pair's name and the value argument a view of the j-th
+// pair's value of the list that is being edited (indices modulo the size): every mutator / query, every position
+template <class P>
+static bool alias_indexed(P& p, const std::vector<std::string>& t, std::size_t at, std::string& r) {
+    if (p.empty()) { r = "0"; return false; }
+    const std::size_t n = p.size();
+    typename P::const_iterator itn = std::next(p.begin(), static_cast<long>(static_cast<std::size_t>(std::atoi(t[at + 1].c_str())) % n));
+    typename P::const_iterator itv = std::next(p.begin(), static_cast<long>(static_cast<std::size_t>(std::atoi(t[at + 2].c_str())) % n));
+    const std::string& what = t[at];
+    const std::string& nm = itn->first; const std::string& vl = itv->second;
+    if (what == "del") p.del(nm);
+    else if (what == "del2") p.del(nm, vl);
+    else if (what == "remove") r = std::to_string(static_cast<unsigned long>(p.remove(nm)));
+    else if (what == "remove2") r = std::to_string(static_cast<unsigned long>(p.remove(nm, vl)));
+    else if (what == "set") p.set(nm, vl);
+    else if (what == "append") p.append(nm, vl);
+    else if (what == "has2") r = p.has(nm, vl) ? "1" : "0";
+    else r = "?";
+    return what != "has2";
+}
+
 static std::vector<unsigned long> parse_units(const std::string& s) {
     std::vector<unsigned long> v;
     if (s == "-") return v;
@@ -247,6 +268,7 @@ static std::string exec(const std::vector<std::string>& t) {
         else if (o == "aappend") { if (p.empty()) r = "0"; else p.append(p.begin()->first, p.begin()->second); }
         else if (o == "aset") { if (p.empty()) r = "0"; else p.set(p.begin()->first, std::prev(p.end())->second); }
         else if (o == "aset2") { if (p.empty()) r = "0"; else p.set(std::prev(p.end(), p.size() >= 2 ? 2 : 1)->first, p.begin()->second); }
+        else if (o == "aidx" && t.size() == 6) alias_indexed(p, t, 3, r);
         else if (o == "adel") { if (p.empty()) r = "0"; else p.del(std::prev(p.end(), p.size() >= 2 ? 2 : 1)->first); }
         else if (o == "adel2") { if (p.empty()) r = "0"; else p.del(std::prev(p.end())->first, std::prev(p.end())->second); }
         else if (o == "size") r = std::to_string(p.size());
